@@ -2,6 +2,7 @@ package c12
 
 import (
 	"reflect"
+	"strings"
 	"unicode/utf8"
 
 	"github.com/cloudwego/eino/schema"
@@ -201,6 +202,11 @@ var schemaPkg = reflect.TypeOf(schema.Message{}).PkgPath()
 
 func isSchemaType(t reflect.Type) bool { return t.PkgPath() == schemaPkg }
 
+// isEinoType: a type declared by eino itself (schema, components/...).
+func isEinoType(t reflect.Type) bool {
+	return strings.HasPrefix(t.PkgPath(), "github.com/cloudwego/eino/")
+}
+
 // registeredSet: the types that are registered with the serializer: eino's
 // builtin basic types, the types this check registers, and eino's own schema
 // types (compose/checkpoint.go documents "all built-in eino types are already
@@ -329,6 +335,7 @@ func registerMore() {
 	seen := map[reflect.Type]bool{}
 	collectSchemaTypes(rt[schema.Message](), seen)
 	collectSchemaTypes(rt[schema.Document](), seen)
+	registerThird()
 }
 
 // ---------------------------------------------------------------------------
@@ -385,6 +392,11 @@ func typeIn1(t reflect.Type) string {
 	case reflect.Struct:
 		if !registeredSet[t] {
 			return "unregistered-type"
+		}
+		for i := 0; i < t.NumField(); i++ {
+			if f := t.Field(i); f.PkgPath != "" && f.Anonymous && hasPromotable(f.Type) {
+				return "embedded-unexported"
+			}
 		}
 		for i := 0; i < t.NumField(); i++ {
 			if t.Field(i).PkgPath != "" {
